@@ -151,11 +151,12 @@ func (i *DictionaryIterator) Next() (segment.DictionaryEntry, error) {
 	term, postingsOffset := i.itr.Current()
 	i.entry.term = string(term)
 	if !i.omitCount {
-		i.err = i.tmp.read(postingsOffset, i.d)
+		pl := i.d.postingsListInit(&i.tmp, nil)
+		i.err = pl.read(postingsOffset, i.d)
 		if i.err != nil {
 			return nil, i.err
 		}
-		i.entry.count = i.tmp.Count()
+		i.entry.count = pl.Count()
 	}
 	i.err = i.itr.Next()
 	return &i.entry, nil
